@@ -324,6 +324,66 @@ mutual
 end
 
 mutual
+  /-- what the serialiser can write: no `u64` above `i64::MAX`, no NUL in a key -/
+  def V.encodable : V → Bool
+    | .num n => !n.refused
+    | .arr items => VList.encodable items
+    | .doc ms => VMembers.encodable ms
+    | _ => true
+  def VList.encodable : VList → Bool
+    | .nil => true
+    | .cons h t => V.encodable h && VList.encodable t
+  def VMembers.encodable : VMembers → Bool
+    | .nil => true
+    | .cons k v t => !decide ((0 : UInt8) ∈ k) && V.encodable v && VMembers.encodable t
+end
+
+/-- the number is held in one of BSON's own types -/
+def Num.isBson : Num → Bool
+  | .int .i32 _ => true
+  | .int .i64 _ => true
+  | .f64 _ => true
+  | _ => false
+
+mutual
+  /-- a value as a BSON reader gives it: int32 / int64 / double are the only numbers -/
+  def V.isBson : V → Bool
+    | .num n => n.isBson
+    | .arr items => VList.isBson items
+    | .doc ms => VMembers.isBson ms
+    | _ => true
+  def VList.isBson : VList → Bool
+    | .nil => true
+    | .cons h t => V.isBson h && VList.isBson t
+  def VMembers.isBson : VMembers → Bool
+    | .nil => true
+    | .cons _ v t => V.isBson v && VMembers.isBson t
+end
+
+/-! ### the layout, as the specification words it -/
+
+mutual
+  /-- `payload` is the value part of an element of type `t` (bsonspec.org): every int32 length field holds exactly the
+  number of bytes it is defined to span, documents and arrays end with 0x00 and hold well-formed element lists -/
+  inductive WfVal : UInt8 → Bytes → Prop
+    | null : WfVal 0x0A []
+    | bool (b : UInt8) : b = 0 ∨ b = 1 → WfVal 0x08 [b]
+    | int32 (bs : Bytes) : bs.length = 4 → WfVal 0x10 bs
+    | int64 (bs : Bytes) : bs.length = 8 → WfVal 0x12 bs
+    | double (bs : Bytes) : bs.length = 8 → WfVal 0x01 bs
+    /-- `string ::= int32 (byte*) "\x00"`, the int32 = number of bytes + 1 -/
+    | str (s : Bytes) : s.length + 1 < 2 ^ 31 → WfVal 0x02 (natLE 4 (s.length + 1) ++ s ++ [0])
+    /-- `document ::= int32 e_list "\x00"`, the int32 = the number of bytes of the whole document -/
+    | doc (body : Bytes) : WfElems body → body.length + 5 < 2 ^ 31 → WfVal 0x03 (natLE 4 (4 + body.length + 1) ++ body ++ [0])
+    | arr (body : Bytes) : WfElems body → body.length + 5 < 2 ^ 31 → WfVal 0x04 (natLE 4 (4 + body.length + 1) ++ body ++ [0])
+  /-- `e_list ::= element e_list | ""`, `element ::= type e_name value`, `e_name ::= cstring` -/
+  inductive WfElems : Bytes → Prop
+    | nil : WfElems []
+    | cons (t : UInt8) (k payload rest : Bytes) : (0 : UInt8) ∉ k → WfVal t payload → WfElems rest →
+        WfElems (t :: (k ++ [0] ++ payload ++ rest))
+end
+
+mutual
   /-- the fuel the reader needs -/
   def V.cost : V → Nat
     | .arr items => 1 + VList.cost items
